@@ -33,6 +33,9 @@ pub struct FileSpec {
     pub path: Vec<String>,
     #[serde(with = "crate::rt::hexser")]
     pub content: Vec<u8>,
+    /// this name is a hard link of an earlier file of the list (`cp -l`, de-duplicated assets): one inode, two regular files
+    #[serde(default)]
+    pub hard_link_of: Option<usize>,
 }
 #[derive(Clone, Debug, Serialize, Deserialize)]
 pub enum Mutation {
@@ -134,8 +137,22 @@ pub fn generate(_cfg: &RunCfg, _out: &mut Outcome) -> Scenario {
     for _ in 0..n {
         let depth = t::weighted(&[5, 3, 2, 1]);
         let mut path: Vec<String> = (0..depth).map(|_| t::pick(&DIRS).to_string()).collect();
-        let ext = t::pick(&EXTS).0;
-        let name = match t::weighted(&[120, 30, 1, 1, 1, 12]) {
+        let mut ext = t::pick(&EXTS).0;
+        // one file in eight is a second name (hard link) of an earlier one: same bytes, same extension, another place
+        let link_to: Option<usize> = if !files.is_empty() && t::chance(1, 8) {
+            let j = t::draw(files.len() as u32) as usize;
+            let je = files[j].path.last().and_then(|n| n.rsplit_once('.')).map(|x| x.1.to_string()).unwrap_or_default();
+            match EXTS.iter().find(|(e, _)| *e == je) {
+                Some((e, _)) => {
+                    ext = e;
+                    Some(j)
+                }
+                None => None,
+            }
+        } else {
+            None
+        };
+        let name = match if link_to.is_some() { 0 } else { t::weighted(&[120, 30, 1, 1, 1, 12]) } {
             // names that merely end in (or contain) the index file's name
             5 => t::pick(&["old-index.html", "reindex.html", "index.html.txt", "index.htm.html", "xindex.html", "index.css"]).to_string(),
             0 => format!("{}.{}", t::pick(&STEMS), ext),
@@ -153,7 +170,13 @@ pub fn generate(_cfg: &RunCfg, _out: &mut Outcome) -> Scenario {
             continue;
         }
         let e = name.rsplit_once('.').map(|x| x.1).unwrap_or("");
-        files.push(FileSpec { path, content: gen_content(e) });
+        match link_to {
+            Some(j) => {
+                let content = files[j].content.clone();
+                files.push(FileSpec { path, content, hard_link_of: Some(j) })
+            }
+            None => files.push(FileSpec { path, content: gen_content(e), hard_link_of: None }),
+        }
     }
     let outside: Vec<String> = (0..t::draw(3)).map(|i| format!("outside{i}.txt")).collect();
     let mount = match t::weighted(&[2, 4, 2, 1]) {
@@ -337,7 +360,14 @@ fn execute(sc: &Scenario, out: &mut Outcome) {
     for f in &sc.files {
         let p = f.path.iter().fold(root.clone(), |a, s| a.join(s));
         let _ = std::fs::create_dir_all(p.parent().unwrap());
-        if std::fs::write(&p, &f.content).is_err() {
+        let made = match f.hard_link_of.and_then(|j| sc.files.get(j)) {
+            Some(orig) => {
+                out.probe("c19.hard_linked_file");
+                std::fs::hard_link(orig.path.iter().fold(root.clone(), |a, s| a.join(s)), &p)
+            }
+            None => std::fs::write(&p, &f.content),
+        };
+        if made.is_err() {
             out.verdict = Verdict::Discard; // e.g. a name is both file and directory
             let _ = std::fs::remove_dir_all(&base);
             return;
